@@ -92,7 +92,7 @@ BadOf(ev) == {f \in FindingsOf(ev) : f[1] # ""}
 Report(ev) ==
   LET b == BadOf(ev)
       reasons == {f[1] : f \in b}
-  IN \A w \in reasons : LET f == CHOOSE x \in b : x[1] = w IN PrintT(<<"BAD", ev.id, w, f[2], f[3], f[4]>>)
+  IN \A w \in reasons : LET f == CHOOSE x \in b : x[1] = w IN PrintT("BAD|" \o ev.id \o "|" \o w \o "|" \o ToString(f[2]) \o "|" \o f[3] \o "|" \o f[4])
 
 Init == l = 1 /\ nbad = 0
 Next == /\ l <= Len(T)
